@@ -297,3 +297,12 @@ package treemap
 //@ func New
 //@   modifies nothing
 //@   ensures [C01 C02 C15 C17] fresh(result) && Inv(result) && N(result) == 0 && fresh(result.tree)
+
+//@ -- String: starts with the container's name; reads only (C15, C18)
+//@ func Map.String
+//@   requires Inv(m)
+//@   modifies nothing
+//@   ensures [C15 C17 C18] hasPrefix(result, "TreeMap")
+//@   loop 1:
+//@     invariant ItInv(it) && it.iterator.tree == m.tree && fresh(it) && fresh(it.iterator) && hasPrefix(str, "TreeMap")
+//@     decreases N(m) - Cur(it)
